@@ -801,6 +801,9 @@ def corpus_cases():
         "K-new-4": Case("T", tmpl("<xsl:text bogus='1'></xsl:text>", "xml"), cls="corpus:K-new-4"),
         "K-new-5": Case("T", tmpl("<xsl:if test='1'><xsl:with-param name='w' select='1'/></xsl:if>", "xml"), cls="corpus:K-new-5"),
         "K-new-6": Case("T", sheet("<xsl:template match='/ /'>x</xsl:template>"), cls="corpus:K-new-6"),
+        # repaired by 6d0ffbc: xsl:copy of an element where only text nodes can be created popped stacks it never pushed (SIGSEGV)
+        "K-core2-2": Case("T", tmpl("<o><xsl:for-each select='//*'><xsl:processing-instruction name='p'><xsl:copy/></xsl:processing-instruction>"
+                                     "<xsl:attribute name='a'><xsl:copy>x</xsl:copy></xsl:attribute></xsl:for-each></o>", "xml"), cls="corpus:K-core2-2"),
     }
 
 
@@ -1001,6 +1004,9 @@ def run(ctx):
         head = "# C03 %s: %s\n# class: %s\n# replay: feed the line(s) below to .build/safe_asan (stdin)\n" % (kind, text, c.cls if c else "-")
         ctx.violation(kind.replace("-", "_"), head + "\n".join(replay))
     ctx.notes["oracle_failures"] = len(new)
+    # erroneous-input streams + the guard models (circular definitions, depth limits): props/C03_errors.py
+    if os.path.exists(os.path.join(core.VERIF, "props", "C03_errors.py")) and os.environ.get("VERIF_C03_NO_ERRORS_PART") != "1":
+        __import__("importlib").import_module("props.C03_errors").run_part(ctx)
     return ctx.finish(LEVEL, explanation="theorems over generated buffer/catch/cast facts and the audited census + sanitizer-supported exploration of all entry points (partial by design)")
 
 
